@@ -6,4 +6,5 @@ import "fv/internal/core"
 var Registry = map[string]func(*core.Ctx){
 	"C01": C01,
 	"C06": C06,
+	"C17": C17,
 }
